@@ -110,6 +110,36 @@ fn ring_program(rng: &mut Rng, st: ScalarType) -> Prog {
     Prog { ctx, g, input_types: vec![t; ni], attempts: vec![] }
 }
 
+/// two inputs of different but broadcastable shapes, a binary operation, then a shape-sensitive
+/// share-wise operation: public/private mixing with broadcasting (where promotion of a public
+/// operand to shares and the planner's rules interact)
+pub fn broadcast_mix_program(rng: &mut Rng, st: ScalarType, variant: usize) -> Prog {
+    let ctx = create_context().unwrap();
+    let g = ctx.create_graph().unwrap();
+    let (m, n) = (2 + rng.below(3), 2 + rng.below(2));
+    let shapes: [(Vec<u64>, Vec<u64>); 6] = [
+        (vec![1, n], vec![m, n]), (vec![m, n], vec![1, n]), (vec![n], vec![m, n]),
+        (vec![m, 1], vec![m, n]), (vec![m, n], vec![n]), (vec![m, 1], vec![1, n]),
+    ];
+    let (sa, sb) = shapes[variant % 6].clone();
+    let (ta, tb) = (array_type(sa, st), array_type(sb, st));
+    let a = g.input(ta.clone()).unwrap();
+    let b = g.input(tb.clone()).unwrap();
+    let c = match (variant / 6) % 3 { 0 => a.subtract(b), 1 => a.add(b), _ => a.multiply(b) }.unwrap();
+    let o = match (variant / 18) % 5 {
+        0 => c.sum(vec![0]).unwrap(),
+        1 => c.sum(vec![1]).unwrap(),
+        2 => c.get(vec![0]).unwrap(),
+        3 => c.cum_sum(0).unwrap(),
+        _ => { let t = c.get_type().unwrap(); let k: u64 = t.get_shape().iter().product(); c.reshape(array_type(vec![k], st)).unwrap() }
+    };
+    g.set_output_node(o).unwrap();
+    g.finalize().unwrap();
+    ctx.set_main_graph(g.clone()).unwrap();
+    ctx.finalize().unwrap();
+    Prog { ctx, g, input_types: vec![ta, tb], attempts: vec![] }
+}
+
 fn ring_obligation(id: usize, p: &Prog, c: &Compiled, owners: &[IOStatus], outs: &[IOStatus]) -> String {
     // quantified ring variables and the two input lists
     let mut vars = vec![];
@@ -175,6 +205,21 @@ pub fn run(tier: &str, seed: u64, out: &mut Out) {
         let (mname, mode) = modes[i % 3].clone();
         let its = p.input_types.clone();
         end_to_end(&p, &owners, &outs, mname, mode, &mut rng, out, 2, &move |r: &mut Rng| its.iter().map(|t| gen_value(t, r)).collect(), if wide { "wide" } else { "fragment" });
+    }
+    // (1) broadcasting with public/private mixing: all 25 owner vectors in the thorough tier
+    let all_owner2 = owner_vectors(2);
+    let n_mix = match tier { "thorough" => 90 * 5, "search" => 90 * 25, _ => 90 };
+    for i in 0..n_mix {
+        let st = *rng.pick(&int_sts);
+        let p = broadcast_mix_program(&mut rng, st, i);
+        // mixed vectors first: exactly one public operand
+        let mixed = [vec![IOStatus::Party(0), IOStatus::Public], vec![IOStatus::Public, IOStatus::Party(1)], vec![IOStatus::Shared, IOStatus::Public], vec![IOStatus::Public, IOStatus::Shared], vec![IOStatus::Party(2), IOStatus::Party(0)]];
+        let owners = if tier == "search" { all_owner2[i % 25].clone() } else { mixed[(i / 90 + i) % 5].clone() };
+        let outs = all_outs[(i * 3 + 1) % 8].clone();
+        let (mname, mode) = modes[i % 3].clone();
+        let its = p.input_types.clone();
+        out.stat("stream:broadcast-mix");
+        end_to_end(&p, &owners, &outs, mname, mode, &mut rng, out, 1, &move |r: &mut Rng| its.iter().map(|t| gen_value(t, r)).collect(), "broadcast-mix");
     }
     // (1) joins and sort
     let jts = [JoinType::Union, JoinType::Inner, JoinType::Left, JoinType::Full];
